@@ -284,4 +284,28 @@ PROPS = {
         'level_text': 'Lean theorems about an executable small-step model of the code (one step per atomic access of insert: search loads with recorded predecessors/successors, allocation, per level store, CAS, re-advance after a failed CAS; and of the iterator: find_greater_or_equal, find_less_than, find_last, next), for every interleaving of any number of inserting and reading threads with distinct keys: every level is a strictly sorted chain, level l+1 is a sub-chain of level l, level 0 holds exactly the keys whose level-0 CAS succeeded, a returned insert is linked and stays linked, no assertion of the code fires, and seek/next/prev end on the nearest linked key in their direction (at the time of their last load); for the prepend-only list the chain is exactly the pushed data, newest first. Correspondence: the real crates run under controlled scheduling (every interleaving of the small scenarios, seeded and preemption-bounded schedules of the larger ones) and free-running, and every recorded access is validated as the next step of the model with the same outcome. PARTIAL: sequentially consistent atomics are assumed.',
         'level_note': 'Trusted: Lean kernel; axioms propext, Classical.choice, Quot.sound; hand-written models (Blue.SkipML, Blue.SkipList, Blue.ListFree, Blue.SkipLife); the cfg(rescrv_blue_verif) hooks of skipfree/listfree; the harness linearisation of free-running logs is untrusted (re-validated by the driver). Not covered: weak-memory behaviours, termination of a search under unbounded concurrent inserts, generic K/V other than u64.',
     },
+    'C09': {
+        'trusted': [
+            'CRC-32C is a parameter of the SST / log / manifest theorems; the driver instantiates it with the Lean table-driven CRC-32C (check value proved) and every block, frame and line checksum the real crc32c crate wrote or verified is re-decided by the model on the same bytes',
+            'bloom filter block: opaque bytes whose CRC and length are checked; Filter::check is taken to answer "maybe" for the keys of the file (the harness probes only keys the builder inserted)',
+            'SHA3 / setsum values are not computed by the model: log_to_setsum is compared by result class, the value is checked by the harness against sst::Setsum over the drained entries',
+            'harness-side layout parsers (SST frames and final block fields, log frames, manifest lines) are used only to name the region of a damaged offset for the oracle classes and the statistics',
+            'the allocation observer is a counting #[global_allocator] in the harness binary, armed only inside the C09 child; RLIMIT_AS = 2 GiB in the child',
+        ],
+        'assumptions': [
+            'CRC detection: "the CRC tells a damaged payload from the original" is a hypothesis (hnc of refines_of_no_collision, NoCollision of torn_manifest), not a theorem; for one flipped bit it is a fact about the CRC-32C polynomial, observed at every bit of every file of every run, not formalised',
+            'a payload that matches its recorded CRC but is not a block a builder wrote (reachable only through a CRC collision or a forged file) is outside the SST model: the model answers hostile-block, the lazy cursor of the code is not predicted there',
+            'appended bytes that are themselves valid records (a manifest separator line, a whole frame with its CRC, a second final block) are read as records: no format without authentication can refuse them; the generated suffixes are random bytes, zeros, copies of the file\'s own tail, bare separators/newlines',
+            'a truncated log or manifest that ends on a record boundary reads as a prefix of the records without error (the crash-recovery contract of C12/C13); the oracle accepts `prefix` only when the damage contains a truncation',
+            'after an error from LogIterator the iterator is not used again; ManifestIterator is drained to None (its non-ASCII error does not end it, and the model follows)',
+            'model of the code after fixes/d3-log-to-builder-unwrap.diff (log_to_builder / log_to_setsum propagate a reader error); on the code as found the constants tie fails and the oracle reports the panics',
+        ],
+        'partial': [
+            'sst_single_burst is relative to the CRC hypothesis (its premise Refines); refines_of_no_collision derives the premise from per-block collision freedom, data_block_damage_opens proves the "same index entries" premise for damage inside the data blocks; for damage inside the index or filter block the open is not proved to fail (it does, in every case of the run, by crc32c-failure)',
+            'never panics / never allocates without bound: by construction in the model (total functions; open_sizes_bounded for the three buffers sized before a checksum is seen); for the code it is an observation of the correspondence run (child process, RLIMIT_AS, largest request per read), not a theorem',
+            'log and manifest: reads_agree_before_damage, crc_mismatch_is_error, truncated_log_prefix, torn_manifest, mani_line_guarded are theorems; "any damage inside a frame or line is an error" again needs the CRC hypothesis and is observed, not proved; torn_manifest is about Blue.Mani.readEdits, which strips a carriage return from an unterminated last line where BufRead::lines does not (Blue.Damage.iterate follows the code; the two differ only on CRC-matching lines)',
+        ],
+        'level_text': 'C09 on executable models of the three readers, run on the very bytes the real code reads: an SST opened from arbitrary bytes (trailer, FinalBlock/BlockMetadata/SstEntry through the derive-macro interpreter with the source\'s error codes, sanity and ordering checks, CRC check on every load, Block::new, lazily loading cursor, load, metadata), the log reader with log_to_builder/log_to_setsum, ManifestIterator item by item with Manifest::open. Theorems: every entry any SST read returns comes from a block whose payload matched its recorded CRC and the index entries from a payload matching the CRC in the final block (sst_reads_are_guarded, open_guarded); relative to the CRC hypothesis every read of a table damaged behind its checksums is an error or the pristine answer, walks are the pristine walk or a prefix of it followed by an error (sst_single_burst, refines_of_no_collision, data_block_damage_opens); final_block_cases classifies any replacement of the unchecksummed tail as rejected / metadata-only / redirected-to-a-CRC-matching-triple, and final_block_metadata_not_detected exhibits D-10 on the bytes of a real SST by kernel evaluation; log: reads_agree_before_damage, crc_mismatch_is_error, truncated_log_prefix, zero_length_is_padding (the mechanism of D-11); manifest: torn_manifest, mani_line_guarded. The check builds SSTs, logs (one crossing a 1 MiB block boundary) and manifests with the real code and reads, with the real code in a child process under RLIMIT_AS and with the model, every single-bit flip, every truncation length, overwrites, suffixes and short damage sequences of every file.',
+        'level_note': 'Trusted: Lean kernel; axioms propext, Classical.choice, Quot.sound; CRC-32C as a parameter, detection as a hypothesis; correspondence is agreement on the generated damage (exhaustive per file for bit flips and truncations); panic- and allocation-freedom are observations. Findings: D-3 (log_to_builder/log_to_setsum unwrap a reader error; fixes/d3-log-to-builder-unwrap.diff), D-10 (final block unchecksummed: setsum/timestamps returned as genuine; format), D-11 (a header-length byte zeroed 20 bytes before a block boundary drops a frame silently; format/reader).',
+    },
 }
